@@ -7,7 +7,7 @@ TRUSTED_BASE = [
     "Rust harness /verif/harness (drives the real code, dumps its state), python orchestrator ./check",
     "HashMap/DashMap as finite maps, VecDeque as a list, monotone Instant, fastrand as an arbitrary choice < len",
     "source translators checklib/static_scopes.py (lock / RefCell nesting -> Generated/*.lean, C16s / C17s) and checklib/static_sites.py (lock-site inventory): lexical scanners, trusted",
-    "source translator checklib/rust2lean.py (pure helper code of memory_estimator.rs, utils.rs, cache_entry.rs, stats.rs, eviction_policy.rs and the victim scans + insert / is_already_key_inserted / handle_entry_limit_eviction of async_global_cache.rs -> Generated/Pure*.lean, theorems T01..T20): a parser + emitter for the Rust subset these files use, trusted; the meaning of the library calls (usize subtraction, VecDeque / HashMap / iterator methods, atomics, f64 as an abstract structure) is the hand-written Cachelito/RustLite.lean, trusted; Rust's trait resolution (which MemoryEstimator impl a shape uses) is transcribed in Cachelito/Source/Mem.lean",
+    "source translator checklib/rust2lean.py (pure helper code of memory_estimator.rs, utils.rs, cache_entry.rs, stats.rs, eviction_policy.rs and the victim scans + insert / is_already_key_inserted / handle_entry_limit_eviction of async_global_cache.rs -> Generated/Pure*.lean, theorems T01..T21): a parser + emitter for the Rust subset these files use, trusted; the meaning of the library calls (usize subtraction, VecDeque / HashMap / iterator methods, atomics, f64 as an abstract structure) is the hand-written Cachelito/RustLite.lean, trusted; Rust's trait resolution (which MemoryEstimator impl a shape uses) is transcribed in Cachelito/Source/Mem.lean",
 ]
 
 HOOK_COMMITS = [
@@ -87,7 +87,7 @@ PROPS = {
         "assumptions": ["deterministic body", "sequential use (interleavings: C18)"],
     },
     "C02": {
-        "lean_modules": ["Cachelito.Props.C02"],
+        "lean_modules": ["Cachelito.Props.C02", "Cachelito.Props.T21"],
         "streams": [lines_stream("keys_diff", "keys", ["{seed}", "{n}", "{n}"], 60, 1000,
                                  "keys: typed random argument tuples of 27 signature shapes (adversarial strings with separators, quotes, backslashes, control/combining/astral chars; ints incl. min/max; nested Option/Vec/tuple; methods with struct/enum receivers) rendered by the REAL to_cache_key / format!({:?}) and by real #[cache] / #[cache_async] functions (keys observed through invalidate_with) vs Keys.keyOf; pairs of DIFFERENT tuples biased to boundary moves must get different real keys", r"^[KP]\|")],
         "monitors": ["C02"],
@@ -98,7 +98,7 @@ PROPS = {
         "design_ref": "DESIGN.md §7 C02", "assumptions": ["float Debug injective on non-NaN"],
     },
     "C03": {
-        "lean_modules": ["Cachelito.Props.C03", "Cachelito.Props.C03c", "Cachelito.Props.T17", "Cachelito.Props.T17m", "Cachelito.Props.T18"],
+        "lean_modules": ["Cachelito.Props.C03", "Cachelito.Props.C03c", "Cachelito.Props.T17", "Cachelito.Props.T17m", "Cachelito.Props.T18", "Cachelito.Props.T21"],
         "streams": [macro_stream(nontrivial=["c03-call"]), hammer_stream(),
                     sched_stream(nontrivial=["c03-plain-concurrent-run", "calls-only-quiescent-check"], quick=(6, 8, 60),
                                  what="L3 calls-only programs: 2-3 real threads call ONE cache with overlapping arguments under the deterministic scheduler (switches at every lock acquisition, so lookups fall between the two halves of another thread's store); plain caches of every policy: once a storing call has returned no later call may run the body; limited caches: a stored key may vanish only from a FULL cache")],
@@ -109,7 +109,7 @@ PROPS = {
         "technique": TECH, "design_ref": "DESIGN.md §7 C03", "assumptions": ["sequential histories"],
     },
     "C14": {
-        "lean_modules": ["Cachelito.Props.C14", "Cachelito.Props.T11", "Cachelito.Props.T12"],
+        "lean_modules": ["Cachelito.Props.C14", "Cachelito.Props.T11", "Cachelito.Props.T12", "Cachelito.Props.T21"],
         "streams": [macro_stream(nontrivial=["c14-shared-hit", "call"]), hammer_stream(),
                     sched_stream(nontrivial=["c03-plain-concurrent-run", "calls-only-quiescent-check"], quick=(6, 8, 60),
                                  what="L3 calls-only programs on shared (global / async) caches under the deterministic scheduler: a value stored by a call that has returned is served to every call that starts later on any thread; a stored key vanishes only from a full cache")],
@@ -120,7 +120,7 @@ PROPS = {
         "technique": TECH, "design_ref": "DESIGN.md §7 C14", "assumptions": [],
     },
     "C19": {
-        "lean_modules": ["Cachelito.Props.C19", "Cachelito.Props.T05", "Cachelito.Props.T17", "Cachelito.Props.T17m", "Cachelito.Props.T18"],
+        "lean_modules": ["Cachelito.Props.C19", "Cachelito.Props.T05", "Cachelito.Props.T17", "Cachelito.Props.T17m", "Cachelito.Props.T18", "Cachelito.Props.T21"],
         "streams": [lines_stream("attrs_diff", "attrs", ["gen", "{seed}", "{n}", "{n}"], 1500, 20000,
                                  "attrs: generated attribute lists (mostly valid: every attribute present/absent, six policies, limits, ttls, max_memory in all forms and letter cases, weights, names, arrays, paths; plus a malformed stream: unknown names, typos, wrong literal kinds, out-of-set policy/scope, negative/overflowing numbers, repeated attributes with an invalid occurrence) through the REAL parse_sync_attributes / parse_async_attributes (catch_unwind) vs Attrs.parse; is_result and has_max_memory expressions copied verbatim", r"^[AR]\|"),
                     {"kind": "compile", "nontrivial": [], "what": "compile corpus through rustc: 22 invalid attribute lists (unknown names, typos, wrong literal kinds, out-of-set policy/scope, negative/float/overflowing numbers, repeated attribute with an invalid occurrence) must fail to compile with the REAL macros, 5 valid controls must compile (one cargo check --examples --keep-going)"},
